@@ -142,6 +142,10 @@ def _exec(sim, op):
     elif o == "fork":
         pid = _resolve_pid(sim, op)
         if pid is not None:
+            if op.get("deep"):       # a grandchild: the child of a child of the worker, if it has one
+                kids = sorted(c.pid for c in sim.kernel.procs.values() if c.parent == pid and c.st == "run")
+                if kids:
+                    pid = kids[0]
             sim.kernel.fork_child(pid, obeys=op.get("obeys", True))
     elif o == "dsig":
         sim.daemon_signal(op["sig"])
@@ -277,7 +281,7 @@ def gen_scenario(seed, profile=None):
                 d = {"op": "extkill", "sel": [w, rng.randint(0, 3)]}
             s.append(d)
         elif r < 0.55 + p["fork"]:
-            s.append({"op": "fork", "sel": [w, rng.randint(0, 3)], "obeys": rng.random() < 0.7})
+            s.append({"op": "fork", "sel": [w, rng.randint(0, 3)], "obeys": rng.random() < 0.7, "deep": rng.random() < 0.4})
         elif r < 0.6 + p["fork"] and p["faults"]:
             s.append({"op": "spawnfault", "kinds": [rng.choice(["OSError", "OSError", "ValueError", None])
                                                      for _ in range(rng.randint(1, 3))]})
